@@ -10,7 +10,8 @@ job (a *pair* of configurations plus, optionally, a mutation of the documents be
   {"hardware": [{"id": "hw1", "kind": "bool_rw"|"num_rw"|"num_ro"|"custom", "input": 3}, ...],   # non-virtual ports, same on both hubs
    "source": [op, ...], "target": [op, ...],
    "mutate": null | [["ports"|"device"|"devices"|"peripherals", mutation], ...],
-   "restore": ["device", "peripherals", "devices", "ports"],          # which documents are PUT, in this order
+   "restore": [...] (optional)                                         # which documents are PUT, in this order; default: ALL four,
+                                                                      # in the order the hub advertises (GET /backup/endpoints + standard)
    "sim": {host: {name, flags, ...}}}                                 # simulated slave devices (what GET /device answers); other hosts refuse
 op:
   ["post_port", {id, type, min?, max?, integer?, step?, choices?}] | ["patch_port", id, {attr: value}] | ["patch_value", id, value]
@@ -454,6 +455,19 @@ class Hub:
                 out.append([pid, text, k, False, 'exc:%s' % type(e).__name__, []])
         return out
 
+    async def advertised_order(self):
+        """the documents in the order a client restores a complete backup: the standard endpoints (the constants of the bundled
+        frontend, read by harness/translate/backupendpoints.py) and those THIS hub advertises (the real get_backup_endpoints),
+        ascending `order`, stable - restricted to the four documents of the property"""
+        from harness.translate import backupendpoints
+        from qtoggleserver.core.api.funcs import backup as api_backup
+        r = await self.call(api_backup.get_backup_endpoints)
+        adv = [(e['path'], e['order']) for e in r[1]] if r[0] == 'ok' else []
+        eps = list(backupendpoints.standard()) + adv
+        names = {'/device': 'device', '/devices': 'devices', '/peripherals': 'peripherals', '/ports': 'ports'}
+        seq = [names[p] for p, _o in sorted(eps, key=lambda e: e[1]) if p in names]
+        return seq, _jsonable(r[1] if r[0] == 'ok' else r)
+
     async def restore(self, name, doc):
         f = {'ports': self.api_ports.put_ports, 'device': self.api_device.put_device,
              'devices': self.api_slaves.put_slave_devices, 'peripherals': self.api_peripherals.put_peripherals}[name]
@@ -513,7 +527,13 @@ async def run_job(hub, job):
         sent[name] = mutate(sent[name], m)
     res['sent'] = {}
     res['put'], res['flags'], res['mid'], res['behaviour'] = {}, {}, {}, {}
-    for name in job.get('restore', ['device', 'peripherals', 'devices', 'ports']):
+    if job.get('restore'):
+        order = job['restore']
+    else:
+        order, res['advertised'] = await hub.advertised_order()
+    res['order'] = order
+    res['after_put'] = {}
+    for name in order:
         if name == 'ports':
             res['mid'] = await hub.docs()     # the hub PUT /ports acts on (peripherals and slaves already restored)
             res['mid_raw'] = await hub.raw_values()
@@ -522,7 +542,8 @@ async def run_job(hub, job):
         res['put'][name] = await hub.restore(name, doc)
         res['flags'][name] = hub.flags()
         res['behaviour'][name] = await hub.behaviour()
-        if name != job.get('restore', ['device', 'peripherals', 'devices', 'ports'])[-1] and res['flags'][name] != [True, True]:
+        res['after_put'][name] = (await hub.docs())[name]      # what that endpoint answers right after its own PUT
+        if name != order[-1] and res['flags'][name] != [True, True]:
             # a later PUT would hide it (put_ports switches both on again); the observation above is what counts
             hub.core_main.enable_updating()
             hub.core_events.enable()
